@@ -16,6 +16,7 @@ import (
 //	none   an address that does not exist
 //	origin the transaction sender
 //	made   derived address number I: an address some CREATE/CREATE2 of a contract would produce
+//	pre    native (precompiled) contract 0x01..0x08 (I normalised into 1..8); call actions pass input vector Vec
 type Target struct {
 	K string `json:"k"`
 	I int    `json:"i,omitempty"`
@@ -31,7 +32,9 @@ type Action struct {
 	To     Target `json:"to"`
 	Value  int    `json:"value,omitempty"`
 	// Gas: all (2^64-1 requested -> 63/64 rule) | stipend (2300) | zero | small (GasN) | exact (measured in a
-	// first pass with ample gas: what the callee used, plus GasN-2)
+	// first pass with ample gas: what the callee used, plus GasN-2) | near (native targets: what the native
+	// contract requires for the vector, plus GasN-2)
+	Vec      int    `json:"vec,omitempty"` // input vector number for a native target
 	Gas      string `json:"gas,omitempty"`
 	GasN     int    `json:"gas_n,omitempty"`
 	Bubble   bool   `json:"bubble,omitempty"` // REVERT this frame when the call/create reports failure
@@ -66,11 +69,18 @@ type Contract struct {
 }
 
 // Tx is one top-level message call.
+// NativeCall makes the transaction a plain message call of a native contract.
+type NativeCall struct {
+	N   int `json:"n"`
+	Vec int `json:"vec"`
+}
+
 type Tx struct {
+	Native *NativeCall `json:"native,omitempty"`
 	// Init non-nil: a contract-creation transaction (runtime.Create) running this init code; else a call of contract Entry
 	Init  *Init `json:"init,omitempty"`
 	Entry int   `json:"entry"`
-	Value int `json:"value,omitempty"`
+	Value int   `json:"value,omitempty"`
 	// fixed: Gas | exact: what the ample-gas pass used + Delta | frac: Pct percent of it
 	GasMode string `json:"gas_mode"`
 	Gas     int    `json:"gas,omitempty"`
@@ -85,6 +95,8 @@ type Case struct {
 	// SecondTx (two transactions only): "same" = second transaction on the very StateDB that finalised the first
 	// (what StateProcessor does inside a block); "copy" = on a Copy() of it (what the miner / pending-state API does).
 	SecondTx string `json:"second_tx,omitempty"`
+	// PrefundNative: the eight native contract addresses hold 1 each before the block (as on Ethereum main net)
+	PrefundNative bool `json:"prefund_native,omitempty"`
 	// Excluded lists known-finding classes this case was steered away from by the generator.
 	Excluded []string `json:"excluded,omitempty"`
 	// Avoid lists known-finding classes whose precondition can only be seen at run time: the run stops before the
@@ -135,9 +147,11 @@ func pick(t *rapid.T, label string, vals []int) int { return vals[uni(t, label, 
 type genCtx struct{ self, n int }
 
 func genTarget(t *rapid.T, g genCtx) Target {
-	k := weighted(t, "tk", "c", 60, "self", 5, "eoa", 6, "none", 6, "origin", 2, "made", 18)
+	k := weighted(t, "tk", "c", 60, "self", 5, "eoa", 6, "none", 6, "origin", 2, "made", 18, "pre", 9)
 	tg := Target{K: k}
 	switch k {
+	case "pre":
+		tg.I = 1 + uni(t, "native", 8)
 	case "c":
 		// mostly forward calls (a tree); sometimes any contract, which allows recursion
 		if g.self >= 0 && g.self+1 < g.n && uni(t, "fwd", 10) >= 2 {
@@ -167,6 +181,18 @@ func genGas(t *rapid.T, a *Action) {
 	}
 }
 
+// genNative fills the input vector and a gas request for a call whose target is a native contract.
+func genNative(t *rapid.T, a *Action) {
+	a.Vec = uni(t, "vec", 12)
+	a.Gas = weighted(t, "ngas", "near", 45, "all", 25, "small", 15, "stipend", 5, "zero", 10)
+	switch a.Gas {
+	case "near":
+		a.GasN = uni(t, "gasdelta", 5)
+	case "small":
+		a.GasN = pick(t, "gasn", smallGas)
+	}
+}
+
 func genAction(t *rapid.T, level int, g genCtx) Action {
 	var op string
 	if level == 0 {
@@ -188,10 +214,17 @@ func genAction(t *rapid.T, level int, g genCtx) Action {
 		a.To = genTarget(t, g)
 		a.Value = genValue(t)
 		genGas(t, &a)
+		if a.To.K == "pre" {
+			genNative(t, &a)
+			a.Value = pick(t, "nvalue", []int{0, 1, 1, 2, 0, 1, 50})
+		}
 		a.Bubble = uni(t, "bubble", 10) >= 7
 	case "delegatecall", "staticcall":
 		a.To = genTarget(t, g)
 		genGas(t, &a)
+		if a.To.K == "pre" {
+			genNative(t, &a)
+		}
 		a.Bubble = uni(t, "bubble", 10) >= 7
 	case "create", "create2":
 		a.Value = genValue(t)
@@ -254,8 +287,10 @@ func genTx(t *rapid.T, n int) Tx {
 	if uni(t, "entry0", 10) >= 7 {
 		tx.Entry = uni(t, "entry", 5)
 	}
-	if uni(t, "txcreate", 100) >= 88 {
+	if k := uni(t, "txkind", 100); k >= 88 {
 		tx.Init = genInit(t, genCtx{-1, n})
+	} else if k >= 81 {
+		tx.Native = &NativeCall{N: 1 + uni(t, "native", 8), Vec: uni(t, "vec", 12)}
 	}
 	tx.Value = pick(t, "txvalue", []int{0, 0, 0, 0, 1, 1, 5, 5, 5, 5, 5, 2000})
 	tx.GasMode = weighted(t, "txgas", "ample", 36, "mid", 30, "tiny", 4, "exact", 10, "frac", 20)
@@ -272,6 +307,18 @@ func genTx(t *rapid.T, n int) Tx {
 		tx.Delta = uni(t, "delta", 5) - 3
 	case "frac":
 		tx.Pct = 5 + uni(t, "pct", 95)
+	}
+	if tx.Native != nil {
+		// gas around what the native contract requires, or plenty
+		tx.GasMode, tx.Gas = "fixed", ampleGas
+		if uni(t, "ntxgas", 10) >= 3 {
+			g := int(specNative(tx.Native.N, nativeVector(tx.Native.N, tx.Native.Vec)).gas) + uni(t, "delta", 5) - 2
+			if g < 1 {
+				g = 1
+			}
+			tx.Gas = g
+		}
+		tx.Value = pick(t, "ntxvalue", []int{5, 0, 1, 5, 2000})
 	}
 	return tx
 }
@@ -309,18 +356,32 @@ func genCase(t *rapid.T) Case {
 			}
 		}
 	}
+	if uni(t, "nativecall", 100) >= 80 {
+		// a call of a native contract, usually carrying value, somewhere in the tree
+		a := Action{Op: weighted(t, "nop", "call", 7, "callcode", 1, "delegatecall", 1, "staticcall", 1), To: Target{K: "pre", I: 1 + uni(t, "native", 8)}}
+		genNative(t, &a)
+		if a.Op == "call" || a.Op == "callcode" {
+			a.Value = pick(t, "nvalue", []int{1, 0, 1, 2, 1})
+		}
+		a.Bubble = uni(t, "bubble", 10) >= 8
+		i := uni(t, "ncontract", n)
+		acts := c.Contracts[i].Prog.Acts
+		at := uni(t, "lat", len(acts)+1)
+		c.Contracts[i].Prog.Acts = append(acts[:at:at], append([]Action{a}, acts[at:]...)...)
+	}
+	c.PrefundNative = uni(t, "prefund", 10) >= 7
 	c.Txs = append(c.Txs, genTx(t, n))
 	if uni(t, "second", 100) >= 65 {
 		c.Txs = append(c.Txs, genTx(t, n))
 		if uni(t, "revisit", 10) >= 6 {
 			// the second transaction enters where the first did (meets what the first created or destroyed)
-			c.Txs[1].Entry, c.Txs[1].Init = c.Txs[0].Entry, c.Txs[0].Init
+			c.Txs[1].Entry, c.Txs[1].Init, c.Txs[1].Native = c.Txs[0].Entry, c.Txs[0].Init, c.Txs[0].Native
 		}
 		c.SecondTx = weighted(t, "secondtx", "same", 65, "copy", 35)
 		if kit.IsKnown(classResurrect) {
 			c.Avoid = append(c.Avoid, classResurrect)
 		}
-		if c.SecondTx == "same" && kit.IsKnown(classC09) && (c.Txs[1].Init != nil || !singleFrame(&c.Contracts[c.Txs[1].Entry%n].Prog)) {
+		if c.SecondTx == "same" && kit.IsKnown(classC09) && c.Txs[1].Native == nil && (c.Txs[1].Init != nil || !singleFrame(&c.Contracts[c.Txs[1].Entry%n].Prog)) {
 			// known, unrepaired defect of core/state (C09): a StateDB that finalised a transaction keeps stale
 			// validator-journal revision ids, and a revert nested in a revert then panics. Excluded by
 			// construction: unless the second transaction cannot nest frames at all, it runs on a Copy()
